@@ -22,9 +22,11 @@ func init() {
 	register(&Rule{ID: "C11.copy", Also: []string{"C09"}, Floor: 2,
 		Text: "every Sub method of package memfs returns, on success, a pointer to a fresh allocation initialised by a whole-struct copy of the receiver followed by a store of the found *dirNode into rootNode; it never returns the receiver and never writes to it (no store through the receiver, no call of a receiver-mutating method on it)",
 		Run:  c11Copy})
-	register(&Rule{ID: "C11.value", Floor: 4,
-		Text: "the holders of per-view state (the embedded types that declare SetUser, SetUMask, SetCurDir) are embedded in MemFS by value and contain no pointer, map, slice or channel (an interface holding an immutable user is allowed), so the struct copy made by Sub separates them; conversely the file-id counter is reached through a pointer, so all views draw ids from one sequence",
-		Run:  c11Value})
+	register(&Rule{ID: "C11.value", Floor: 4, Also: []string{"C03", "C05", "C08"},
+		AlsoOnly:  map[string][]string{"C03": {"avfs.UMaskFn"}, "C05": {"id-counter shared"}, "C08": {"id-counter shared"}},
+		AlsoFloor: map[string]int{"C03": 1, "C05": 1, "C08": 1},
+		Text:      "the holders of per-view state (the embedded types that declare SetUser, SetUMask, SetCurDir) are embedded in MemFS by value and contain no pointer, map, slice or channel (an interface holding an immutable user is allowed), so the struct copy made by Sub separates them; conversely the file-id counter is reached through a pointer, so all views draw ids from one sequence",
+		Run:       c11Value})
 	register(&Rule{ID: "C11.confine", Floor: 4,
 		Text: "upward traversal is impossible by construction: node types hold no reference to a directory other than the children map, and in the path walk the directory cursor is only ever assigned the view's rootNode or a child of the current cursor; absolute link targets restart at the cursor's starting root",
 		Run:  c11Confine})
